@@ -89,3 +89,18 @@ Proof.
            (list_fs_parents_first now_far (excl_incl ex) normalize_unix D)
            HwD eq_refl Hsk).
 Qed.
+
+(* ... and without any premise about skips (Proofs/ConfineAll.no_run_goes_through_a_link) *)
+Theorem run_top_never_through cfg S D a ans bits ex ft :
+  unique_keys S -> wf_fs S -> unique_keys D -> wf_fs D ->
+  no_through (d_events (r_dest (run_top cfg S D a ans bits ex ft))).
+Proof.
+  intros HuS HwS HuD HwD. unfold run_top.
+  exact (no_run_goes_through_a_link now_far (excl_incl ex) normalize_unix chunk_real
+           cfg S (world D a []) ans bits _ _ ft
+           (list_fs_valid now_far (excl_incl ex) normalize_unix S HuS HwS)
+           (list_fs_valid now_far (excl_incl ex) normalize_unix D HuD HwD)
+           (list_fs_parents_first now_far (excl_incl ex) normalize_unix S)
+           (list_fs_parents_first now_far (excl_incl ex) normalize_unix D)
+           HwD eq_refl).
+Qed.
